@@ -71,7 +71,7 @@ Theorem C05_exclusion_persists : forall e st e' o,
   syse_step e st = Ok (e', o) ->
   forall set', In set' (e_buffer e') ->
   (exists set, In set (e_buffer e) /\ bs_events set' = bs_events set /\ incl (bs_excluded set) (bs_excluded set')) \/
-  (bs_excluded set' = [] /\ exists tick dt ops parts emit, st = ESFrame tick dt ops parts emit).
+  (bs_excluded set' = [] /\ exists tick dt cleanup ops parts emit, st = ESFrame tick dt cleanup ops parts emit).
 Proof. exact buffer_step_mono. Qed.
 
 Theorem C05_excluded_connection_gets_nothing : forall e slot uid set m,
@@ -115,8 +115,8 @@ Theorem C05_server_receive_exactly_once_with_sender : forall e,
              = filter (fun m => cety_eqb (cev_ty (snd m)) t) (e_inbox e)).
 Proof. exact server_receive_conservation. Qed.
 
-Theorem C05_server_frame_receives_once : forall e tick dt ops parts emit e' o,
-  syse_step e (ESFrame tick dt ops parts emit) = Ok (e', o) ->
+Theorem C05_server_frame_receives_once : forall e tick dt cleanup ops parts emit e' o,
+  syse_step e (ESFrame tick dt cleanup ops parts emit) = Ok (e', o) ->
   (sv_running (y_server (e_sys e)) = true -> Permutation (eo_from o) (e_inbox e) /\ e_inbox e' = []) /\
   (sv_running (y_server (e_sys e)) = false -> eo_from o = []).
 Proof. exact sframe_from. Qed.
@@ -215,10 +215,10 @@ Definition c05_view (r : res (syse * list eout)) :=
 (* client 0 connected; SE0 (dependent) and SEI (independent) broadcast in a frame without tick;
    client 1 connects; tick: SEI went to client 0 at once, SE0 goes to client 0 only *)
 Definition c05_script_a : list estep :=
-  [EBase StStart; ESFrame false 10 [] [] []; EBase (StConnect 0 1200);
-   ESFrame false 10 [] [] [(SE0, (999, false, false), 7, None); (SEI, (999, false, false), 8, None)];
+  [EBase StStart; ESFrame false 10 false [] [] []; EBase (StConnect 0 1200);
+   ESFrame false 10 false [] [] [(SE0, (999, false, false), 7, None); (SEI, (999, false, false), 8, None)];
    EBase (StConnect 1 1200);
-   ESFrame true 16 [] [] []].
+   ESFrame true 16 false [] [] []].
 Example C05_late_client_excluded :
   c05_view (erun (syse_init c05_cfg 2) c05_script_a)
   = Some ([[]; []; []; [(0, mkSMsg SEI None 8 None)]; []; [(0, mkSMsg SE0 (Some 0) 7 None)]],
@@ -242,12 +242,12 @@ Qed.
 (* client events: CEM about the mapped entity 1 is sent, about the unmapped entity 2 is not; the server
    sees each once, tagged with slot 0 *)
 Definition c05_script_b : list estep :=
-  [EBase StStart; ESFrame false 10 [] [] []; EBase (StConnect 0 1200);
-   ESFrame true 16 [SSpawn 1 true [(0, VNat 5)]] [] [];
+  [EBase StStart; ESFrame false 10 false [] [] []; EBase (StConnect 0 1200);
+   ESFrame true 16 false [SSpawn 1 true [(0, VNat 5)]] [] [];
    EBase (StDeliver 0 true 0 All);
    ECFrame 0 [] [mkCev CEM 3 (Some 1); mkCev CEM 4 (Some 2); mkCev CE0 5 None];
    EDeliverC2S 0 CEM First; EDeliverC2S 0 CE0 All;
-   ESFrame true 16 [] [] []; ESFrame true 16 [] [] []].
+   ESFrame true 16 false [] [] []; ESFrame true 16 false [] [] []].
 Example C05_client_events :
   c05_view (erun (syse_init c05_cfg 1) c05_script_b)
   = Some ([[]; []; []; []; []; []; []; []; []; []], [[]; []; []; []; []; []; []; []; []; []],
@@ -267,12 +267,12 @@ Proof. repeat split. Qed.
    the event SE0/7, sent to connection 1 before connection 2 existed, is handed to the logic of
    connection 2 (last frame) - "a client never receives an event sent before it connected" fails. *)
 Definition c05_script_reconnect : list estep :=
-  [EBase StStart; ESFrame false 10 [] [] []; EBase (StConnect 0 1200);
-   ESFrame true 16 [SSpawn 1 true [(0, VNat 5)]] [] [(SE0, (999, false, false), 7, None)];
+  [EBase StStart; ESFrame false 10 false [] [] []; EBase (StConnect 0 1200);
+   ESFrame true 16 false [SSpawn 1 true [(0, VNat 5)]] [] [(SE0, (999, false, false), 7, None)];
    EDeliverS2C 0 SE0 All false;
    ECFrame 0 [] [];
    EBase (StDisconnect 0); EBase (StConnect 0 1200);
-   ESFrame true 16 [] [] [];
+   ESFrame true 16 false [] [] [];
    EBase (StDeliver 0 true 0 All);
    ECFrame 0 [] []].
 Example C05_quick_reconnect_receives_old_event :
@@ -288,10 +288,10 @@ Proof. vm_compute. reflexivity. Qed.
    independent broadcast SEI but never the dependent broadcast SE0 of the same frame: the buffer is
    flushed to authorized clients only and then emptied. *)
 Definition c05_script_unauth : list estep :=
-  [EBase StStart; ESFrame false 10 [] [] []; EBase (StConnect 0 1200);
-   ESFrame true 16 [] [] [(SE0, (999, false, false), 7, None); (SEI, (999, false, false), 8, None)];
+  [EBase StStart; ESFrame false 10 false [] [] []; EBase (StConnect 0 1200);
+   ESFrame true 16 false [] [] [(SE0, (999, false, false), 7, None); (SEI, (999, false, false), 8, None)];
    EBase (StAuthorize 0);
-   ESFrame true 16 [] [] []].
+   ESFrame true 16 false [] [] []].
 Example C05_unauthorized_client_misses_dependent_event :
   match erun (syse_init c05_cfg_auth 1) c05_script_unauth with
   | Ok (e, os) => Some (map eo_sent os, e_buffer e)
